@@ -1,7 +1,7 @@
 use crate::{
     cfg::{Cfg, CfgNode},
     parser::{HasIdentity, Label, ParserNode},
-    passes::{DiagnosticLocation, DiagnosticManager, LintError, LintPass},
+    passes::{DiagnosticManager, LintError, LintPass},
 };
 use std::collections::BTreeSet;
 use uuid::Uuid;
@@ -34,26 +34,19 @@ impl LintPass for OverlappingFunctionCheck {
                 && (node.is_function_entry_with_func().is_some()
                     || node.prevs().iter().any(|prev| owners(prev) != owners(&node)))
             {
-                // HACK: Create a dummy label with the same name
-                // The label that stands directly in front of the instruction,
-                // whatever the labels are called: labels in the file of the
-                // instruction are closer than labels of an including or
-                // included file, and a later position is closer.
-                let mut labels = node.labels().into_iter().collect::<Vec<_>>();
-                labels.sort_by(|a, b| {
-                    (a.file() == node.file())
-                        .cmp(&(b.file() == node.file()))
-                        .then_with(|| a.range().cmp(&b.range()))
-                        .then_with(|| a.cmp(b))
-                });
-                let location = match labels.last() {
-                    Some(l) => ParserNode::Label(Label {
+                // Point at the label of the shared code. With several labels
+                // on the instruction there is no way to tell which one stands
+                // closest to it (they may come from different files, and
+                // their names must not matter): point at the instruction.
+                let labels = node.labels().into_iter().collect::<Vec<_>>();
+                let location = match labels.as_slice() {
+                    // HACK: Create a dummy label with the same name
+                    [l] => ParserNode::Label(Label {
                         name: l.clone(),
                         key: Uuid::new_v4(),
                         token: l.raw_token().clone(),
                     }),
-                    // Shared code without a label: point at the instruction
-                    None => node.node(),
+                    _ => node.node(),
                 };
 
                 let mut functions = node.functions().clone().into_iter().collect::<Vec<_>>();
